@@ -41,6 +41,10 @@ type Prop struct {
 	// Replay re-runs a violation from its saved detail alone (optional). When
 	// nil, replay re-runs (tier, seed, idx).
 	Replay func(c *Ctx, detail json.RawMessage)
+	// ParentInit runs in the parent before any worker is started (it may set
+	// environment variables that workers inherit, e.g. GORACE with a log_path
+	// under env.Scratch; env.Scratch of the parent lives until after Finalize).
+	ParentInit func(env *Env) error
 	// Finalize runs in the parent after aggregation (coverage notes, extra
 	// evidence keys, observed-nothing decisions).
 	Finalize func(a *Agg)
